@@ -70,26 +70,27 @@ func runC09(c *Check) {
 		all := c.eff.Collect(Ma, WalkOpts{})
 		c.Req(len(all) > len(effs)+10, name, p.Pos(Ma.Pos()), "sanity:gate-hides-leave", "the leave path (with its repairs) exists below the gate", fmt.Sprintf("%d vs %d", len(all), len(effs)))
 		// read error keeps the state
+		// judged on paths: from every edge on which the read is known to have failed, leaving out the ways on which the
+		// error is 'not found', only "stay paused" is returned (covers `if err != nil && !Is(…)` and the switch form alike)
 		found := false
 		for _, b := range Ma.Blocks {
 			for si := range b.Succs {
 				for _, l := range fa.EdgeLits(b, si) {
-					if p.ErrIs(false, "dcs.ErrNotFound", fnGetMaint)(l) {
-						if ok, _ := fa.Gated(b.Instrs[len(b.Instrs)-1], p.ErrNonNil(fnGetMaint)); !ok {
-							continue
-						}
-						found = true
-						badr := ""
-						for _, r := range Returns(Ma) {
-							pth, _ := fa.ReachFromEdge(b, si, func(in ssa.Instruction) bool { return in == ssa.Instruction(r) }, ReachOpts{})
-							if pth != nil {
-								if k, _ := c.retKind(fa, r, 0); k != "const:Maintenance" {
-									badr = p.InstrPos(r) + " returns " + k
-								}
+					if !p.ErrNonNil(fnGetMaint)(l) {
+						continue
+					}
+					found = true
+					badr := ""
+					for _, r := range Returns(Ma) {
+						pth, _ := fa.ReachFromEdge(b, si, func(in ssa.Instruction) bool { return in == ssa.Instruction(r) }, ReachOpts{Cut: []LitPat{p.ErrIs(true, "dcs.ErrNotFound", fnGetMaint)}})
+						if pth != nil {
+							if k, _ := c.retKind(fa, r, 0); k != "const:Maintenance" {
+								badr = p.InstrPos(r) + " returns " + k
 							}
 						}
-						c.Req(badr == "", name, p.InstrPos(blockIf(b)), "read-error-keeps-state", "a failed read of the maintenance record keeps the paused state", badr)
 					}
+					c.Req(badr == "", name, p.InstrPos(blockIf(b)), "read-error-keeps-state", "a failed read of the maintenance record keeps the paused state", badr)
+					break
 				}
 			}
 		}
